@@ -36,6 +36,7 @@ mod verif_c16 {
     static mut NATURAL_REACHED: bool = false;
     fn natural_recorder(_a: &str, _b: &str) -> Ordering { unsafe { NATURAL_REACHED = true; } Ordering::Equal }
     #[kani::proof]
+    #[kani::solver(kissat)]
     #[kani::unwind(6)]
     #[kani::stub(<f64 as std::str::FromStr>::from_str, no_float)]
     #[kani::stub(crate::util::sort::natural_cmp, natural_recorder)]
@@ -56,6 +57,7 @@ mod verif_c16 {
     }
     /// location order of arguments = declaration order (their slots in the names slice)
     #[kani::proof]
+    #[kani::solver(kissat)]
     #[kani::unwind(6)]
     #[kani::stub(<f64 as std::str::FromStr>::from_str, no_float)]
     #[kani::stub(crate::util::sort::natural_cmp, natural_recorder)]
@@ -67,6 +69,7 @@ mod verif_c16 {
     }
     /// the chosen attribute first, the other two as tie-breakers, each exactly once
     #[kani::proof]
+    #[kani::solver(kissat)]
     fn tie_breakers() {
         for attr in [SortingAttr::Kind, SortingAttr::Name, SortingAttr::Location] {
             let t = attr.with_tie_breakers();
@@ -90,6 +93,7 @@ mod verif_c16_sort {
     }
     /// digit runs (leading zeros included) compare by numeric value
     #[kani::proof]
+    #[kani::solver(kissat)]
     #[kani::unwind(6)]
     fn digit_runs_by_value() {
         let mut ba = [0u8; 3]; let mut bb = [0u8; 3];
@@ -108,6 +112,7 @@ mod verif_c16_sort {
     /// natural_cmp is a consistent order on mixed strings: reflexive, antisymmetric, and a digit
     /// run inside text compares by value ("a9" < "a10")
     #[kani::proof]
+    #[kani::solver(kissat)]
     #[kani::unwind(6)]
     fn natural_cmp_consistent() {
         let mut ba = [0u8; 3]; let mut bb = [0u8; 3];
